@@ -80,29 +80,53 @@ def _rel(a, b):
 
 
 def run_transforms(ctx):
+  out = Outcome()
+  # tiny grid: complete bases; medium grid: the resolved wavenumbers span several x- and y-shards (on the tiny grid they all sit in shard 0)
+  out.merge(_run_transforms(ctx, {}, 'tiny(M4,L5)'))
+  out.merge(_run_transforms(ctx, dict(M=20, L=21, lon=64, lat=32), 'medium(M20,L21)', ops=('to_nodal', 'd_dlon', 'cos_lat_d_dlat', 'clip_wavenumbers'),
+                            meshes=[(1, 2, 1), (1, 4, 2), (2, 2, 2), (1, 2, 4)] if ctx.tier == 'quick' else None, levels=(3,)))
+  return out
+
+
+def _run_transforms(ctx, gkw, gname, ops=None, meshes=None, levels=(3, 5)):
   jax = common.jx()
   import jax.numpy as jnp
   out = Outcome()
-  g0 = _grid(None)
+  _grid0 = _grid
+  _grid_ = lambda mesh, **o: _grid0(mesh, **gkw, **o)
+  g0 = _grid_(None)
   m0, n0 = g0.modal_shape, g0.nodal_shape
   nm_, nn_ = int(np.prod(m0)), int(np.prod(n0))
-  modal_basis = np.eye(nm_).reshape((nm_,) + m0) * np.asarray(g0.mask)[None]
-  nodal_basis = np.eye(nn_).reshape((nn_,) + n0)
+  if nm_ <= 64:
+    modal_basis = np.eye(nm_).reshape((nm_,) + m0) * np.asarray(g0.mask)[None]
+    nodal_basis = np.eye(nn_).reshape((nn_,) + n0)
+  else:
+    sel = np.argwhere(np.asarray(g0.mask))
+    modal_basis = np.zeros((len(sel),) + m0)
+    modal_basis[np.arange(len(sel)), sel[:, 0], sel[:, 1]] = 1.0
+    # nodal side: a spanning set of the band-limited nodal fields (images of the modal basis) instead of all grid-point deltas
+    nodal_basis = None
   ops_modal = {
       'to_nodal': lambda g: g.to_nodal, 'd_dlon': lambda g: g.d_dlon, 'laplacian': lambda g: g.laplacian,
       'inverse_laplacian': lambda g: g.inverse_laplacian, 'cos_lat_d_dlat': lambda g: g.cos_lat_d_dlat,
       'sec_lat_d_dlat_cos2': lambda g: g.sec_lat_d_dlat_cos2, 'clip_wavenumbers': lambda g: g.clip_wavenumbers,
   }
+  if ops:
+    ops_modal = {k: v for k, v in ops_modal.items() if k in ops}
+  # complete basis restricted to the resolved (masked-in) coefficients
+  sel = np.argwhere(np.asarray(g0.mask))
   ref = {}
   for k, f in ops_modal.items():
     ref[k] = np.asarray(f(g0)(jnp.asarray(modal_basis)))
+  if nodal_basis is None:
+    nodal_basis = ref['to_nodal']
   ref['to_modal'] = np.asarray(g0.to_modal(jnp.asarray(nodal_basis)))
-  for shape in _meshes(ctx.tier):
+  for shape in (meshes or _meshes(ctx.tier)):
     mesh = _mesh(shape)
     for opts in ({},) + (({'stacked_fourier_transforms': False}, {'reverse_einsum_arg_order': True}) if ctx.tier == 'thorough' or shape == (1, 2, 2) else ()):
-      g = _grid(mesh, **opts)
+      g = _grid_(mesh, **opts)
       ms, ns = g.modal_shape, g.nodal_shape
-      tag = f'mesh{shape}{opts or ""}'
+      tag = f'{gname}:mesh{shape}{opts or ""}'
       wit = {'mesh': list(shape), 'opts': {k: str(v) for k, v in opts.items()}}
       xb = jnp.asarray(_pad_to(modal_basis, ms))
       worst, finite, name_w = 0.0, True, ''
@@ -124,7 +148,7 @@ def run_transforms(ctx):
       else:
         out.fail(nm, witness=wit, detail=f'worst {worst:.3e} in {name_w}; finite={finite}', key=f'transforms:{name_w}')
       # levels not divisible by z (vertical padding inside the transforms)
-      for K in (3, 5):
+      for K in levels:
         x = np.random.RandomState(K).randn(K, *m0) * np.asarray(g0.mask)
         a = _trim_to(g.to_nodal(jnp.asarray(_pad_to(x, ms))), n0)
         b = np.asarray(g0.to_nodal(jnp.asarray(x)))
